@@ -29,6 +29,7 @@ def gen_hist(rng, tier):
             lo.append(l); hi.append(h); w.append(wi); per.append(P); wc.append(c)
             conf += inj_cv("x%d" % i, i, l, h, wi, P if P else None, c if P else None)
         step0 = rng.rand() < 0.3
+        cvw = list(w)
         # custom grid block overriding any subset of {lowerBoundary, upperBoundary, width} (for all variables at once)
         gridblock = ""; custom = []
         if True:
@@ -64,9 +65,9 @@ def gen_hist(rng, tier):
                 gridblock += " }\n"
         lines = ["m.new %d" % nd, cfg(conf),
                  cfg("histogram {\n name h\n colvars %s\n%s%s}\n" % (" ".join("x%d" % i for i in range(nd)), " stepZeroData on\n" if step0 else "", gridblock)),
-                 "M.hist h %d %d %s %s %s %s %s %s" % (1 if step0 else 0, nd, " ".join(str(i) for i in range(nd)),
-                     " ".join(map(fbits, lo)), " ".join(map(fbits, hi)), " ".join(map(fbits, w)),
-                     " ".join(map(fbits, per)), " ".join(map(fbits, wc)))]
+                 ] + ["M.cv x%d %d %s %s %s 0" % (i, i, fbits(cvw[i]), fbits(per[i]), fbits(wc[i])) for i in range(nd)] + [
+                 "M.hist h %d %d %s %s %s %s" % (1 if step0 else 0, nd, " ".join("x%d" % i for i in range(nd)),
+                     " ".join(map(fbits, lo)), " ".join(map(fbits, hi)), " ".join(map(fbits, w)))]
         nsteps = rng.randint(3, 25)
         hist = []
         for s_ in range(nsteps):
